@@ -140,6 +140,39 @@ def gen_default_switches(rng, out, n_cases):
         size = min(total, rng.choice([999, 1000, 1001, total]))
         out.append(mk(rng.below(4), rng.below(2), rng.choice([1, 2, 4]), rng.choice(OS_VALUES), rng.below(4), 0, 0, 2, 1000, size, seqs))
 
+def gen_huge(rng, out, n_cases, n_large):
+    """HUGE TOTALS: k = 1..4 sequences whose lengths sum to 2^31, 2^31+r, 2^32, 2^32+size, 2.8e9, ... (sparse uint8_t
+    mappings in the harness), of which a prefix of size <= 2000 is merged by 1..4 threads through all four entry points with
+    both splitting requests.  Each entry: (harness line, model line on the sequences truncated to their first `size`
+    elements, truncated sequences, lengths).  An element beyond position `size` of a sequence cannot be among the first
+    `size` elements of the merge, so the truncated input has the same first `size` merged elements and the same cursors."""
+    for n in range(n_cases):
+        size = rng.range(200, 2000) if n < n_large else rng.choice([0, 1, 2, 3, 5, rng.range(4, 60), rng.range(4, 60)])
+        k = rng.range(1, 4)
+        T = rng.choice([2**31, 2**31 + rng.range(1, 5000), 2**32, 2**32 + size, 2**32 + size, 2800000000, 2**31 - 1, 2**32 - 1, 2**32 + 2**31 + 7])
+        shape = rng.below(3)
+        if k == 1: lens = [T]
+        elif shape == 0:                      # one huge sequence, the others short (also empty, also shorter than size)
+            rest = [rng.choice([0, 1, rng.range(0, size + 50), rng.range(0, 40)]) for _ in range(k - 1)]
+            lens = rest + [T - sum(rest)]
+            j = rng.below(k); lens[j], lens[-1] = lens[-1], lens[j]
+        elif shape == 1:                      # equal parts
+            lens = [T // k] * k; lens[0] += T - sum(lens)
+        else:                                 # two huge ones
+            a = T // 2 + rng.range(-1000, 1000)
+            lens = [a, T - a] + [rng.range(0, 30) for _ in range(k - 2)]
+        universe = rng.choice([1, 2, 5, 50, 254])
+        heads = []
+        for L in lens:
+            h = min(L, rng.choice([0, size // 2, size, size + 20, rng.range(0, size + 20)]))
+            heads.append(sorted(rng.below(universe) for _ in range(h)))
+        entry = rng.below(4); split = rng.below(2); p = rng.range(1, 4); os_ = rng.choice(OS_VALUES); mwma = rng.below(4)
+        hline = "huge %d %d %d %d %d %d %d " % (entry, split, p, os_, mwma, size, k) + \
+            " ".join("%d %d%s" % (L, len(h), "".join(" %d" % x for x in h)) for L, h in zip(lens, heads))
+        trunc = [(h + [255] * (min(L, size) - len(h)))[:min(L, size)] for L, h in zip(lens, heads)]
+        mline = mk(entry, split, p, os_, mwma, 0, 1, 2, 1000, size, trunc)
+        out.append((hline, mline, trunc, lens))
+
 def gen_algo_sweep(rng, out):
     """every MultiwayMergeAlgorithm value x k = 2..9 x non-sentinel entry points x both memory regimes x both element
     kinds, no empty sequence (so the unguarded phases run), thread counts that leave no chunk empty"""
@@ -170,7 +203,7 @@ cases = list(corpus)
 if ck.replay:
     cases = [json.load(open(ck.replay))["case"]]
 else:
-    nblocks, nrand, nbig, nsw = (260, 6000, 1500, 4000) if ck.thorough() else (60, 2300, 260, 1900)
+    nblocks, nrand, nbig, nsw = (260, 6000, 1500, 4000) if ck.thorough() else (54, 2000, 240, 1600)
     for _ in range(nblocks): gen_small_block(rng, cases)
     for _ in range(nrand): gen_random(rng, cases, False)
     for _ in range(nbig): gen_random(rng, cases, True)
@@ -179,8 +212,18 @@ else:
     gen_algo_sweep(rng, cases)
     gen_default_switches(rng, cases, 40 if ck.thorough() else 5)
 ms_cases = []
+huge_cases = []
 if not ck.replay:
     gen_ms(rng, ms_cases, 600 if ck.thorough() else 160)
+    gen_huge(rng, huge_cases, 700 if ck.thorough() else 130, 30 if ck.thorough() else 2)
+elif cases and cases[0].startswith("huge "):
+    # replay of a huge-totals case: "huge ..." line; rebuild the truncated model input from it
+    t = cases[0].split(); size_h, k_h = int(t[6]), int(t[7]); i = 8; tr = []; ln = []
+    for _ in range(k_h):
+        L, h = int(t[i]), int(t[i + 1]); hd = list(map(int, t[i + 2:i + 2 + h])); i += 2 + h
+        ln.append(L); tr.append((hd + [255] * (min(L, size_h) - len(hd)))[:min(L, size_h)])
+    huge_cases.append((cases[0], mk(int(t[1]), int(t[2]), int(t[3]), int(t[4]), int(t[5]), 0, 1, 2, 1000, size_h, tr), tr, ln))
+    cases = []
 
 parsed = [parse(c) for c in cases]
 main_idx = list(range(len(parsed)))
@@ -212,6 +255,7 @@ API_SURFACE = [
  {"api": "every MultiwayMergeAlgorithm value (MWMA_LOSER_TREE, _COMBINED, _SENTINEL, MWMA_BUBBLE) x k = 2..9 non-empty sequences x non-sentinel entry points (parallel_multiway_merge, stable_parallel_multiway_merge) x both memory regimes x both element kinds, thread counts 1,2,3,5 leaving no chunk empty (unguarded phases run)", "called": True, "by": "gen_algo_sweep on every run (256 cases); counted per (mwma, k) in input_distribution"},
  {"api": "tlx::parallel_mergesort / stable_parallel_mergesort (comp, num_threads 1..9,13, MWMSA_SAMPLING | MWMSA_EXACT; no merge-algorithm parameter exists: the per-thread merges use MWMA_ALGORITHM_DEFAULT) as a second consumer of the same merge kernels, both element kinds", "called": True, "by": "gen_ms ('ms' lines), judged against the (stable) sort by the Python reference; C06 owns the property"},
  {"api": "OpenMP variant of parallel_multiway_merge_base (#if defined(_OPENMP))", "called": False, "by": "the check builds without -fopenmp, as the repo's default build does; the std::thread variant is the one exercised (the two bodies are textually the same computation)"},
+ {"api": "HUGE TOTALS: k = 1..4 sequences of uint8_t in sparse MAP_NORESERVE mappings whose lengths sum to 2^31-1, 2^31, 2^31+r, 2^32-1, 2^32, 2^32+size, 2.8e9, 2^32+2^31+7 (one huge + short/empty ones | equal parts | two huge), std::greater on descending data, prefix of size 0..2000, 1..4 threads, all four entry points, both splitting requests (MWMSA_SAMPLING is served by the exact splitter for a prefix), all merge algorithms", "called": True, "by": "gen_huge ('huge' lines, 12-byte binary only); judged by the Python reference and against the Coq model run on the sequences truncated to their first `size` elements (an element beyond position `size` of a sequence cannot be among the first `size` merged elements; the truncation argument itself is not a Coq theorem)"},
  {"api": "regimes: no sequences | all sequences empty | empty sequences between non-empty ones | size = 0 | size < p | p > total | one long among short sequences | heavy duplicates across split points (1..3 distinct keys)", "called": True, "by": "corpus + generator shapes 0-3"},
 ]
 
@@ -346,6 +390,43 @@ else:
                                  {"case": l, "impl": o[:600]})
                     break
         stats.update(ms_stats)
+        # huge totals: implementation on the sparse huge sequences vs the model on the sequences truncated to `size` elements
+        if huge_cases:
+            hl = [h[0] for h in huge_cases]; ml = [h[1] for h in huge_cases]
+            rcm, outm = run_file(drv, ml, 3000)
+            hm = outm.splitlines()
+            hi = run_impl(exe, hl, "ret=")
+            stats["huge_totals"] = 0; stats["huge_total_ge_2^32"] = 0
+            if rcm != 0 or len(hm) != len(ml):
+                ck.violation("extracted model driver failed on the huge-totals family", {"correspondence": "ocaml/C07_driver.ml", "log": outm[-1500:]}, no_input=True)
+            else:
+                for (hline, mline, trunc, lens), o, m in zip(huge_cases, hi, hm):
+                    if o is None or o == "CRASH": continue
+                    evaluations += 1; stats["huge_totals"] += 1
+                    if sum(lens) >= 2**32: stats["huge_total_ge_2^32"] += 1
+                    c = parse(mline); f = fields(o); size = c["size"]
+                    exp = sorted((key, s_, i_) for s_, q in enumerate(trunc) for i_, key in enumerate(q))[:size]
+                    okeys = [e[0] for e in triples(f.get("out", ""))]
+                    cur = list(map(int, f["cur"].split(","))) if f.get("cur") else []
+                    v = None
+                    if f.get("w") != "ok": v = "writes outside the output window (%s)" % f.get("w")
+                    elif int(f.get("ret", -1)) != size: v = "returned end %s, expected %d" % (f.get("ret"), size)
+                    elif len(cur) != len(lens) or any(x < 0 or x > L for x, L in zip(cur, lens)): v = "cursor outside its sequence (%s)" % f.get("cur")
+                    elif okeys != [e[0] for e in exp]: v = "output values differ from the sequential merge"
+                    elif sum(cur) != size or any(x > len(q) for x, q in zip(cur, trunc)): v = "inputs advanced to %s, %d elements written" % (cur, size)
+                    elif sorted(key for x, q in zip(cur, trunc) for key in q[:x]) != sorted(okeys): v = "inputs advanced to %s but the elements written are not the elements passed" % cur
+                    elif c["stable"] and cur != [sum(1 for e in exp if e[1] == s_) for s_ in range(len(lens))]: v = "stable variant advanced the inputs to %s" % cur
+                    if v is not None:
+                        found = True
+                        ck.violation("huge totals (%d elements in total, prefix of %d merged): %s" % (sum(lens), size, v), {"case": hline, "impl": o[:600]})
+                        break
+                    g = fields(m)
+                    if m.strip() == "UB" or f.get("ret") != g.get("ret") or f.get("cur") != g.get("cur") or okeys != [e[0] for e in triples(g.get("out", ""))]:
+                        ck.violation("huge totals: implementation satisfies the property but differs from the Coq model run on the sequences truncated to their first `size` elements",
+                                     {"case": hline, "impl": o[:600], "model": m[:600], "correspondence": "C07/PMWM.v run_model on truncated inputs"}, no_input=True)
+                        break
+                    if sum(lens) >= 2**31 and size > 0: distinct.add(hline)
+            samples.append({"case": huge_cases[0][0][:300], "impl": str(hi[0])[:200] if hi else None})
         for idx, (line, c) in enumerate(zip(todo, tp)):
             if idx >= len(impl): break
             evaluations += 1
@@ -379,7 +460,7 @@ else:
                 continue
             if par and (f.get("win", "").count("+") >= 2 or (f.get("win") == "?" and g_windows(model[idx]) >= 2)): distinct.add(line)
         pick = [0, len(corpus), len(todo) // 2, len(todo) - 1]
-        samples = [{"case": todo[i], "impl": str(impl[i])[:300], "model": model[i][:300]} for i in pick if i < len(impl) and i < len(todo)]
+        samples += [{"case": todo[i], "impl": str(impl[i])[:300], "model": model[i][:300]} for i in pick if i < len(impl) and i < len(todo)]
         if ms_cases: samples.append({"case": ms_cases[0][1][:300]})
 
     # --- ThreadSanitizer run (thorough tier): same harness, a slice of the parallel cases
@@ -409,7 +490,7 @@ if pr is not None and not pr["ok"]:
 ck.finish({
     "evaluations": evaluations,
     "distinct_nontrivial": len(distinct),
-    "rule": "corpus first (witnesses of every defect found and of the seeded changes), then: small inputs (<= 6 sequences, lengths <= 7, 1..6 distinct keys, empties) x EVERY size 0..total x thread counts {1,2,3,total-1,total,total+1,32,random} x both splitting requests (sampling with oversampling 1,2,10); random inputs up to 9 sequences x 200 elements with threads 1..32 and sizes at total, total-1, p-1, p, p+1, random; switch cases around minimal_k / minimal_n / force flags on all four entry points and all four merge algorithms; a sweep of every merge algorithm x k = 2..9 x non-sentinel entry points x memory regime (own exactly sized blocks / adjacent in one buffer, no sentinels) x element kind (12-byte record / 40-byte heap-owning record with poisoning destructor); (stable_)parallel_mergesort runs with both element kinds. Each case runs on the real entry points (real threads, logging output iterator over a buffer of exactly `size` elements, ASan+UBSan) and on the extracted Coq model; compared: returned end, cursors, output (element identities for the stable variants, keys for the unstable ones), per-thread output windows, exactly-once verdict. Independently the implementation's result is judged against the property by a Python reference (sort by (key, sequence, position)). non-trivial = parallel path taken and at least two different threads wrote output; distinct = distinct case text. MWMSA_SAMPLING with size < total is generated freely (every size of the small inputs, half of the random sampling cases): the repaired code serves it with the exact splitter and so does the model.",
+    "rule": "corpus first (witnesses of every defect found and of the seeded changes), then: small inputs (<= 6 sequences, lengths <= 7, 1..6 distinct keys, empties) x EVERY size 0..total x thread counts {1,2,3,total-1,total,total+1,32,random} x both splitting requests (sampling with oversampling 1,2,10); random inputs up to 9 sequences x 200 elements with threads 1..32 and sizes at total, total-1, p-1, p, p+1, random; switch cases around minimal_k / minimal_n / force flags on all four entry points and all four merge algorithms; a sweep of every merge algorithm x k = 2..9 x non-sentinel entry points x memory regime (own exactly sized blocks / adjacent in one buffer, no sentinels) x element kind (12-byte record / 40-byte heap-owning record with poisoning destructor); (stable_)parallel_mergesort runs with both element kinds; a huge-totals family (totals around 2^31 and 2^32 up to 6.4e9 elements in sparse mappings, short prefix merged) judged by the reference and against the model on the inputs truncated to their first `size` elements. Each case runs on the real entry points (real threads, logging output iterator over a buffer of exactly `size` elements, ASan+UBSan) and on the extracted Coq model; compared: returned end, cursors, output (element identities for the stable variants, keys for the unstable ones), per-thread output windows, exactly-once verdict. Independently the implementation's result is judged against the property by a Python reference (sort by (key, sequence, position)). non-trivial = parallel path taken and at least two different threads wrote output; distinct = distinct case text. MWMSA_SAMPLING with size < total is generated freely (every size of the small inputs, half of the random sampling cases): the repaired code serves it with the exact splitter and so does the model.",
     "samples": samples,
     "input_distribution": stats,
     "exhaustive": False,
@@ -423,6 +504,7 @@ ck.finish({
     "/repo contains the C08 tie-rule repair, fixes/C07/01,02 and the dispatch 'MWMSA_SAMPLING with size < total uses exact splitting' (all committed as fix: commits); the model is the repaired behaviour, the shipped selection survives as pmwm_base_shipped with its refutation lemma",
     "sample index of the sampling splitter is modelled by the exact integer floor; cases where the C++ double arithmetic rounds differently (flag fp=1, counted in input_distribution.fp_rounding_cases) are compared on everything except the per-thread windows",
     "std::sort/std::stable_sort of the samples and std::upper_bound are modelled by their specification",
+    "huge-totals family: the model cannot execute lists of 2^32 elements; it is run on every sequence truncated to its first `size` elements, which has the same first `size` merged elements and cursors (informal argument; the theorems themselves hold for lists of any length); per-thread windows are not compared there (plain output)",
     "data races at the C++ level are outside the model: supported by the exactly-once writer log on every case and by ThreadSanitizer in the thorough tier",
     "extraction: ExtrOcamlBasic only",
 ])
